@@ -54,6 +54,7 @@ type Exec struct {
 	inlineLimit int
 	pkgByPath   map[string]*ssa.Package
 	fnByKey     map[string]*ssa.Function
+	loopFreshFn func(v ssa.Value, depth int) bool
 	alias       map[*ssa.Function]string
 }
 
@@ -730,6 +731,19 @@ func (x *Exec) checkInvariants(st *State, fr *Frame, lp *Loop, ls *LoopSpec, pha
 		return
 	}
 	env := x.loopEnv(st, fr, lp)
+	if phase == "preserved" {
+		for i, c := range ls.Hints {
+			label := c.Label
+			if label == "" {
+				label = fmt.Sprintf("%d", i+1)
+			}
+			t := x.evalBool(env, c.E)
+			side := env.takeSide()
+			x.oblige(st, fmt.Sprintf("loop%d.hint.%s", lp.ordinal, label), "", c.Props, t, c.Src, side...)
+			st.assume(And(side...))
+			st.assume(t)
+		}
+	}
 	for i, c := range ls.Invariants {
 		label := c.Label
 		if label == "" {
@@ -922,6 +936,35 @@ func (x *Exec) loopWrites(st *State, fr *Frame, lp *Loop) *loopWriteSet {
 		switch v := v.(type) {
 		case *ssa.UnOp:
 			if v.Op == token.MUL {
+				// load of a heap-allocated local that the loop never stores to (directly or through a callee's assigns)
+				if a, ok := v.X.(*ssa.Alloc); ok && !fi.isCell[a] && !inLoop(a) {
+					stable := true
+					if refs := a.Referrers(); refs != nil {
+						for _, r := range *refs {
+							if !lp.blocks[r.Block()] {
+								continue
+							}
+							switch r := r.(type) {
+							case *ssa.UnOp, *ssa.DebugRef:
+							case *ssa.Call:
+								if sp := r.Common().StaticCallee(); sp == nil {
+									stable = false
+								} else if cs := x.DB.Funcs[funcKey(sp)]; cs != nil && len(cs.Assigns) > 0 {
+									stable = false
+								} else if x.externalModel(sp) != nil && len(x.externalModel(sp).writes) > 0 {
+									stable = false
+								}
+							default:
+								stable = false
+							}
+						}
+					}
+					if stable {
+						if pv, ok := fr.vals[a]; ok && pv.Loc != nil {
+							return Val{T: x.load(st, pv.Loc)}, true
+						}
+					}
+				}
 				if a := rootAlloc(v.X); a != nil && fi.isCell[a] && !ws.cells[a] {
 					if _, ok := st.cells[cellKey{fr.id, a}]; ok {
 						pv, ok := headVal(v.X, depth+1)
@@ -943,6 +986,55 @@ func (x *Exec) loopWrites(st *State, fr *Frame, lp *Loop) *loopWriteSet {
 		}
 		return Val{}, false
 	}
+	// loopFresh: the value is an object allocated in the current iteration (so no object that existed at the loop head is written through it)
+	var loopFresh func(v ssa.Value, depth int) bool
+	loopFresh = func(v ssa.Value, depth int) bool {
+		if depth > 4 || !inLoop(v) {
+			return false
+		}
+		switch v := v.(type) {
+		case *ssa.MakeMap, *ssa.MakeSlice:
+			return true
+		case *ssa.Alloc:
+			return !fi.isCell[v]
+		case *ssa.UnOp:
+			if v.Op != token.MUL {
+				return false
+			}
+			a, ok := v.X.(*ssa.Alloc)
+			if !ok || !lp.blocks[a.Block()] {
+				return false
+			}
+			// every store to the variable stores a loop-fresh value; other uses are loads or call arguments
+			refs := a.Referrers()
+			if refs == nil {
+				return false
+			}
+			nst := 0
+			for _, r := range *refs {
+				switch r := r.(type) {
+				case *ssa.Store:
+					if r.Addr != a || !loopFresh(r.Val, depth+1) {
+						return false
+					}
+					nst++
+				case *ssa.UnOp, *ssa.DebugRef:
+				case *ssa.Call:
+					// passed by address to a callee: callees write only what their contract names (checked at the call)
+					if sp := r.Common().StaticCallee(); sp == nil {
+						return false
+					} else if cs := x.DB.Funcs[funcKey(sp)]; cs != nil && len(cs.Assigns) > 0 {
+						return false
+					}
+				default:
+					return false
+				}
+			}
+			return nst > 0
+		}
+		return false
+	}
+	x.loopFreshFn = loopFresh
 	addComp := func(comp string, s Sort, target *Term) {
 		w := ws.comps[comp]
 		if w == nil {
@@ -975,6 +1067,8 @@ func (x *Exec) loopWrites(st *State, fr *Frame, lp *Loop) *loopWriteSet {
 					if top {
 						if hv, ok := headVal(ins.Map, 0); ok && hv.T != nil {
 							tgt = hv.T
+						} else if loopFresh(ins.Map, 0) {
+							tgt = IntLit(-1)
 						}
 					}
 					addComp(mdComp(ks, vs), mdSort(ks), tgt)
@@ -1025,6 +1119,8 @@ func (x *Exec) scanStoreTarget(addr ssa.Value, fn *ssa.Function, top bool, headV
 			if top {
 				if hv, ok := headVal(a.X, 0); ok && hv.T != nil {
 					tgt = SlArr(hv.T)
+				} else if x.loopFreshFn != nil && x.loopFreshFn(a.X, 0) {
+					tgt = IntLit(-1)
 				}
 			}
 			addComp(hsComp(es), hsSort(es), tgt)
